@@ -1,7 +1,7 @@
 TEXTS = {
  "C01": {
   "technique": "property-based testing (rapidcheck): generated multi-thread send/flush/capacity histories under a generated schedule, oracle = independent reference decoder + reference encoder (multiset, per-thread order, capacity)",
-  "level": "exploration: thousands of generated send histories (all 72 low-level constructors, escape-heavy payloads, capacities 0..255, auto-flush timings, 1-4 threads with scheduler-owned preemptions) are decoded with an independent strict BiDiB decoder and compared with an independent encoder; failures shrink to a replay file",
+  "level": "exploration: thousands of generated send histories (all 72 low-level constructors, escape-heavy payloads, capacity announcements 0..255 - evaluated by the library in the normal-mode third of the cases, where the bound is the capacity in force while the packet was filled -, auto-flush timings, 1-4 threads with scheduler-owned preemptions) are decoded with an independent strict BiDiB decoder and compared with an independent encoder; failures shrink to a replay file",
   "note": "trusts the reference codec (ref/codec.hpp, bit-wise CRC) and the reference encoding table (harness/sends.cpp) written from the header documentation; interleavings only at lock/sleep granularity",
  },
  "C18": {
@@ -25,7 +25,7 @@ TEXTS = {
   "note": "as C03; the harness flushes before each stall notice",
  },
  "C05": {
-  "technique": "property-based testing (rapidcheck) over thread schedules: 2-6 sender threads plus the receiver releasing deferred messages, scheduler-owned preemption lists / seeded random preemption; oracle = consecutive per-node sequence numbers in decoded wire order",
+  "technique": "property-based testing (rapidcheck) over thread schedules: 2-6 sender threads (messages with and without data bytes, i.e. both constructors) plus the receiver releasing deferred messages, scheduler-owned preemption lists / seeded random preemption; oracle = consecutive per-node sequence numbers in decoded wire order",
   "level": "exploration: generated thread plans (shared and private nodes, budget-deferred messages released by injected answers, 255->1 wrap prologue) under generated schedules with preemption at every lock operation; per destination node the decoded wire must carry 1,2,..,255,1,..",
   "note": "interleavings inside critical sections are not explored (lock-granularity scheduler); numbering after system reset is checked by the normal-mode properties",
  },
@@ -45,7 +45,7 @@ TEXTS = {
   "note": "reference encodings in props/c09.cpp written from include/highlevel/*.h and the BiDiB drive/accessory message layout; bus simulator answers every request",
  },
  "C15": {
-  "technique": "model-based property-based testing (rapidcheck): generated node trees (3 levels, nested and unknown interfaces), enumeration with table-change interruptions (optionally with a node leaving), generated node-lost/node-new histories and commands against a reference node-table model",
+  "technique": "model-based property-based testing (rapidcheck): generated node trees (3 levels, nested and unknown interfaces), enumeration with table-change interruptions in the root or a nested interface (optionally with a node leaving), generated node-lost/node-new histories and commands against a reference node-table model",
   "level": "exploration: connectivity and addresses reported by the getters must equal the tree model after startup and after every notice; every notice must be acknowledged exactly once to its sender with the announced version without a flush; commands go to the current address of connected boards only",
   "note": "tree model in props/c15.cpp; bus simulator in harness/bus.cpp written from the BiDiB node-table description",
  },
@@ -86,7 +86,7 @@ TEXTS = {
   "engine": "vfprop",
  },
  "C16": {
-  "technique": "stateful property-based testing (rapidcheck): generated lists of 1-5 library sessions in one process (normal / silent interface / faulty configuration / debug mode x auto-flush off, 5 ms, 50 ms) with generated activity, stop-while-stopped and start-while-running calls and repeated recipes; oracles = decoded shutdown transcript (order and exactly-once constraints), thread ledger and lock table of the interposed pthread layer, LeakSanitizer, metamorphic session-equivalence (a repeated recipe yields the same startup transcript, probe transcript and snapshot)",
+  "technique": "stateful property-based testing (rapidcheck): generated lists of 1-5 library sessions in one process (normal / silent interface / faulty configuration / debug mode x auto-flush off, 5 ms, 50 ms) with generated activity, stop-while-stopped and start-while-running calls (also in mid-session with other callbacks and pending work) and repeated recipes; oracles = decoded shutdown transcript (order and exactly-once constraints), thread ledger and lock table of the interposed pthread layer, LeakSanitizer, metamorphic session-equivalence (a repeated recipe yields the same startup transcript, probe transcript and snapshot)",
   "level": "exploration: every successfully started normal session must end with exactly one soft-stop per connected track output, then a zero-speed/functions-off drive message per (train, output), then exactly one track-off per output, all on the wire before bidib_stop returns; every thread created is joined exactly once and none of an earlier session again; no lock held, no leak; no-op calls produce no byte and no thread; session k behaves like session 1 (capacity 64, numbering from 1, same startup dialogue)",
   "note": "known finding listed in KNOWN_FINDINGS.txt: shutdown commands deferred behind unanswered requests of a track output are discarded (excluded by construction while listed: requests to track outputs are answered); leak detection relies on LeakSanitizer's recoverable check at the end of the case",
  },
@@ -96,7 +96,7 @@ TEXTS = {
   "note": "the order graph treats an rwlock as one node regardless of mode; recursive read acquisition by one thread is reported as information (legal with glibc's reader-preferring default, which the lock model mirrors); absence of a cycle in the observed graph is not a proof for paths never executed",
  },
  "C10": {
-  "technique": "property-based testing (rapidcheck) over thread plans and schedules in two flavours of one harness: (1) deterministic scheduler with generated preemptions at every lock operation, ASan, library built with -finstrument-functions for a lock-contract monitor generated from the tree's 'Shall only be called with X acquired' comments, linearizability-style oracle for entity getters against the reference state model; (2) free-running real threads under ThreadSanitizer with generated delays at lock operations",
+  "technique": "property-based testing (rapidcheck) over thread plans and schedules in two flavours of one harness: (1) deterministic scheduler with generated preemptions at every lock operation, ASan, library built with -finstrument-functions for a lock-contract monitor generated from the tree's 'Shall only be called with X acquired' comments, linearizability-style oracle for entity getters against the reference state model, with prober threads that the scheduler runs at every release of a track-state mutex, and lost-update oracles for commands of several threads on one train; (2) free-running real threads under ThreadSanitizer with generated delays at lock operations",
   "level": "exploration: 2-4 (scheduled) / 2-12 (ThreadSanitizer) application threads mixing every getter, high-level setter, admin call, low-level sender, flush and queue reader with continuous uplink traffic and auto-flush; no sanitizer report with a library frame, every reached internal accessor holds the locks its contract names, every concurrently returned entity state existed at a message boundary inside the call window, no lock held at return or after stop",
   "note": "absence of a ThreadSanitizer report is evidence for the interleavings and memory the instrumentation saw (glib internals are uninstrumented); reports inside bidib_start_*, bidib_stop, bidib_send_sys_reset, bidib_communication_works are outside the documented contract and ignored; once-only queue delivery under concurrent readers is checked by C06",
  },
